@@ -686,10 +686,26 @@ int KSI_FsClient_extractPath(const char *uri, char **path) {
 		goto cleanup;
 	}
 
-	pathStart = strstr(uri, scheme) + strlen(scheme);
-	if (pathStart == NULL) {
-		res = KSI_INVALID_ARGUMENT;
-		goto cleanup;
+	/* The scheme is matched case-insensitively, as everywhere else in URI handling. */
+	{
+		size_t i;
+		size_t schemeLen = strlen(scheme);
+
+		if (strlen(uri) < schemeLen) {
+			res = KSI_INVALID_ARGUMENT;
+			goto cleanup;
+		}
+
+		for (i = 0; i < schemeLen; i++) {
+			char c = uri[i];
+			if (c >= 'A' && c <= 'Z') c = (char)(c - 'A' + 'a');
+			if (c != scheme[i]) {
+				res = KSI_INVALID_ARGUMENT;
+				goto cleanup;
+			}
+		}
+
+		pathStart = (char *)uri + schemeLen;
 	}
 
 	tmpPath = KSI_malloc(strlen(pathStart) + 1);
